@@ -14,7 +14,10 @@ func TestC19(t *testing.T) {
 	runProperty(t, "C19",
 		func(rt *rapid.T) *vcase.Case {
 			c, mut := vcase.GenInputCase(rt)
-			c.Extra = map[string]any{"via_yaml": rapid.Bool().Draw(rt, "via_yaml")}
+			if c.Extra == nil {
+				c.Extra = map[string]any{}
+			}
+			c.Extra["via_yaml"] = rapid.Bool().Draw(rt, "via_yaml")
 			if mut != nil {
 				c.Extra["mutation"] = map[string]any{"kind": mut.Kind, "field": mut.Field}
 			}
@@ -24,7 +27,11 @@ func TestC19(t *testing.T) {
 			mut, invalid := c.Extra["mutation"].(map[string]any)
 			viaYAML, _ := c.Extra["via_yaml"].(bool)
 			req := c.Request("run")
-			if viaYAML {
+			if raw, ok := c.Extra["raw_input"]; ok {
+				// the whole document is not a map
+				req.Input = raw
+				viaYAML = false
+			} else if viaYAML {
 				doc := vcase.RenderInputYAML(c.InputDoc)
 				req.InputYAML = &doc
 				req.Input = nil
